@@ -251,6 +251,40 @@ Proof.
     eapply IH; [|exact H]. eapply reach_step; eauto.
 Qed.
 
+(* ---------------------------------------------------------------- the serializer's IAS15 compression is invisible to the next step *)
+Lemma ias15_compress_le : forall a n, ias15_compress a n <= a.
+Proof. intros a n. unfold ias15_compress. destruct (Nat.ltb (3 * n) a) eqn:E; [apply Nat.ltb_lt in E; lia | lia]. Qed.
+Lemma ias15_compress_keeps_needed : forall a n, 3 * n <= a -> 3 * n <= ias15_compress a n.
+Proof. intros a n H. unfold ias15_compress. destruct (Nat.ltb (3 * n) a); lia. Qed.
+Lemma ias15_compress_idempotent : forall a n, ias15_compress (ias15_compress a n) n = ias15_compress a n.
+Proof.
+  intros a n. unfold ias15_compress. destruct (Nat.ltb (3 * n) a) eqn:E.
+  - rewrite Nat.ltb_irrefl. reflexivity.
+  - rewrite E. reflexivity.
+Qed.
+(* whether the next IAS15 step re-allocates (and zeroes its arrays) is the same with and without a serialisation in between *)
+Lemma ias15_compress_invisible : forall a n, ias15_step_reallocates (ias15_compress a n) n = ias15_step_reallocates a n.
+Proof.
+  intros a n. unfold ias15_step_reallocates, ias15_compress.
+  destruct (Nat.ltb (3 * n) a) eqn:E.
+  - rewrite Nat.ltb_irrefl. apply Nat.ltb_lt in E. symmetry. apply Nat.ltb_ge. lia.
+  - reflexivity.
+Qed.
+(* the same for any demanded length n3 <= 3*N (MERCURIUS / TRACE close encounters integrate encounter_N <= N particles with IAS15) *)
+Lemma ias15_compress_invisible_n3 : forall a n n3, n3 <= 3 * n -> Nat.ltb (ias15_compress a n) n3 = Nat.ltb a n3.
+Proof.
+  intros a n n3 H. unfold ias15_compress. destruct (Nat.ltb (3 * n) a) eqn:E; [|reflexivity].
+  apply Nat.ltb_lt in E.
+  assert (H1 : Nat.ltb (3 * n) n3 = false) by (apply Nat.ltb_ge; lia).
+  assert (H2 : Nat.ltb a n3 = false) by (apply Nat.ltb_ge; lia).
+  rewrite H1, H2. reflexivity.
+Qed.
+(* ... whereas compressing to the number of REAL particles (the N / N_real mix-up) makes the next step re-allocate *)
+Lemma wrong_compress_visible : exists a n nvar,
+  let a' := if Nat.ltb (3 * (n - nvar)) a then 3 * (n - nvar) else a in
+  ias15_step_reallocates a n = false /\ ias15_step_reallocates a' n = true.
+Proof. exists 12, 4, 2. vm_compute. split; reflexivity. Qed.
+
 (* ---------------------------------------------------------------- independent simulations commute *)
 Lemma iter_succ_r : forall (A : Type) (f : A -> A) n x, Nat.iter (S n) f x = Nat.iter n f (f x).
 Proof. induction n as [|n IH]; intro x; [reflexivity|]. change (f (Nat.iter (S n) f x) = f (Nat.iter n f (f x))). f_equal. apply IH. Qed.
